@@ -11,6 +11,25 @@ import pandas as pd
 
 PAR = 100.0
 TOL = 1e-16
+# relative tolerance of the allocation sizing search (an absolute one cannot be
+# met once amounts exceed ~1e8, where adjacent doubles are further apart)
+RTOL = 1e-12
+
+INFINITE_LOOP_MSG = (
+    "Potentially infinite loop detected. This occurred "
+    "while trying to reduce the amount of shares purchased"
+    " to respect the outlay <= amount rule. This is most "
+    "likely due to a commission function that outputs a "
+    "commission that is greater than the amount of cash "
+    "a short sale can raise."
+)
+NOT_APPROACHING_MSG = (
+    "The difference between what we have raised with q and"
+    " the amount we are trying to raise has gotten bigger since"
+    " last iteration! full_outlay should always be approaching"
+    " amount! There may be a case where the commission fn is"
+    " not smooth"
+)
 
 
 @cy.locals(x=cy.double)
@@ -1487,23 +1506,21 @@ class SecurityBase(Node):
         # buy/sell
         # determine quantity - must also factor in commission
         # closing out?
-        if is_zero(amount + self._value):
+        closing = is_zero(amount + self._value)
+        if closing:
             q = -self._position
         else:
             q = amount / (self._price * self.multiplier)
             if self.integer_positions:
-                if (self._position > 0) or (is_zero(self._position) and (amount > 0)):
-                    # if we're going long or changing long position
-                    q = math.floor(q)
-                else:
-                    # if we're going short or changing short position
-                    q = math.ceil(q)
+                # always round down: buying fewer or selling more units is
+                # what keeps the outlay within the amount, long or short
+                q = math.floor(q)
 
         # if q is 0 nothing to do
         if is_zero(q) or np.isnan(q):
             return
 
-        # unless we are closing out a position (q == -position)
+        # unless we are closing out a position (amount == -value)
         # we want to ensure that
         #
         # - In the event of a positive amount, this indicates the maximum
@@ -1516,78 +1533,93 @@ class SecurityBase(Node):
         # sell additional units to fund this requirement. As such, q must once
         # again decrease.
         #
-        if not q == -self._position:
-            full_outlay, _, _, _ = self.outlay(q)
-
-            # if full outlay > amount, we must decrease the magnitude of `q`
-            # this can potentially lead to an infinite loop if the commission
-            # per share > price per share. However, we cannot really detect
-            # that in advance since the function can be non-linear (say a fn
-            # like max(1, abs(q) * 0.01). Nevertheless, we want to avoid these
-            # situations.
-            # cap the maximum number of iterations to 1e4 and raise exception
-            # if we get there
-            # if integer positions then we know we are stuck if q doesn't change
-
-            # if integer positions is false then we want full_outlay == amount
-            # if integer positions is true then we want to be at the q where
-            #   if we bought 1 more then we wouldn't have enough cash
-            i = 0
-            last_q = q
-            last_amount_short = full_outlay - amount
-            while not np.isclose(full_outlay, amount, rtol=TOL) and q != 0:
-                dq_wout_considering_tx_costs = (full_outlay - amount) / (self._price * self.multiplier)
-                q = q - dq_wout_considering_tx_costs
-
-                if self.integer_positions:
-                    q = math.floor(q)
-
+        if not closing:
+            if self.integer_positions:
+                # we want to be at the q where if we bought 1 more then we
+                # wouldn't have enough cash
+                q = self._largest_whole_quantity(q, amount)
+            else:
+                # we want full_outlay == amount
+                # if full outlay != amount, we must change `q`
+                # this can potentially lead to an infinite loop if the commission
+                # per share > price per share. However, we cannot really detect
+                # that in advance since the function can be non-linear (say a fn
+                # like max(1, abs(q) * 0.01). Nevertheless, we want to avoid these
+                # situations.
+                # cap the maximum number of iterations to 1e4 and raise exception
+                # if we get there
                 full_outlay, _, _, _ = self.outlay(q)
-
-                # if our q is too low and we have integer positions
-                # then we know that the correct quantity is the one  where
-                # the outlay of q + 1 < amount. i.e. if we bought one more
-                # position then we wouldn't have enough cash
-                if self.integer_positions:
-                    full_outlay_of_1_more, _, _, _ = self.outlay(q + 1)
-
-                    if full_outlay < amount and full_outlay_of_1_more > amount:
-                        break
-
-                # if not integer positions then we should keep going until
-                # full_outlay == amount or is close enough
-
-                i = i + 1
-                if i > 1e4:
-                    raise Exception(
-                        "Potentially infinite loop detected. This occurred "
-                        "while trying to reduce the amount of shares purchased"
-                        " to respect the outlay <= amount rule. This is most "
-                        "likely due to a commission function that outputs a "
-                        "commission that is greater than the amount of cash "
-                        "a short sale can raise."
-                    )
-
-                if self.integer_positions and last_q == q:
-                    raise Exception(
-                        "Newton Method like root search for quantity is stuck!"
-                        " q did not change in iterations so it is probably a bug"
-                        " but we are not entirely sure it is wrong! Consider "
-                        " changing to warning."
-                    )
-                last_q = q
-
-                if np.abs(full_outlay - amount) > np.abs(last_amount_short):
-                    raise Exception(
-                        "The difference between what we have raised with q and"
-                        " the amount we are trying to raise has gotten bigger since"
-                        " last iteration! full_outlay should always be approaching"
-                        " amount! There may be a case where the commission fn is"
-                        " not smooth"
-                    )
+                i = 0
                 last_amount_short = full_outlay - amount
+                while not np.isclose(full_outlay, amount, rtol=RTOL) and q != 0:
+                    dq_wout_considering_tx_costs = (full_outlay - amount) / (self._price * self.multiplier)
+                    q = q - dq_wout_considering_tx_costs
+
+                    full_outlay, _, _, _ = self.outlay(q)
+
+                    i = i + 1
+                    if i > 1e4:
+                        raise Exception(INFINITE_LOOP_MSG)
+
+                    if np.abs(full_outlay - amount) > np.abs(last_amount_short):
+                        raise Exception(NOT_APPROACHING_MSG)
+                    last_amount_short = full_outlay - amount
 
         self.transact(q, update, False)
+
+    def _largest_whole_quantity(self, q, amount):
+        """
+        Largest whole quantity whose full outlay (nothing when nothing is
+        traded) fits within amount, searched from the estimate q. Relies on the
+        full outlay increasing with the quantity, i.e. on the commission and
+        half spread per unit staying below the unit price.
+        """
+
+        def fits(x):
+            if x == 0:
+                return amount >= 0
+            full_outlay = self.outlay(x)[0]
+            return full_outlay <= amount or np.isclose(full_outlay, amount, rtol=RTOL)
+
+        def amount_short(x):
+            if x == 0:
+                return -amount
+            return self.outlay(x)[0] - amount
+
+        unit = self._price * self.multiplier
+
+        # decrease q (by the shortfall in units, at least doubling the step)
+        # until the full outlay fits
+        lo = float(q)
+        step = 0.5
+        last_amount_short = amount_short(lo)
+        i = 0
+        while not fits(lo):
+            step = max(2 * step, math.ceil(last_amount_short / unit))
+            lo = lo - step
+            now_amount_short = amount_short(lo)
+            if now_amount_short > last_amount_short:
+                raise Exception(NOT_APPROACHING_MSG)
+            last_amount_short = now_amount_short
+            i = i + 1
+            if i > 1e4:
+                raise Exception(INFINITE_LOOP_MSG)
+
+        # lo fits: find the first quantity above it that does not, then bisect
+        step = 1.0
+        hi = lo + step
+        while fits(hi):
+            lo = hi
+            step = 2 * step
+            hi = lo + step
+        while hi - lo > 1:
+            mid = math.floor((lo + hi) / 2)
+            if fits(mid):
+                lo = mid
+            else:
+                hi = mid
+
+        return lo
 
     @cy.locals(
         q=cy.double,
